@@ -33,17 +33,14 @@ Lemma dget_nil : forall sm t c r, delta_of O sm t c = [] -> dget sm t c r = None
 Proof. intros sm t c r H. unfold dget. rewrite H. reflexivity. Qed.
 
 
-(* every delta of the summary sits under a live key (its table and column exist); its row exists or was removed in the
-   bundle (its restore will be inserted at the front of the undo list) *)
+(* every delta of the summary sits under a key that is gone (the column or the table was removed: defunct name) or
+   live (the table and the column exist); in the latter case its row exists or was removed in the bundle.  The restores
+   of the cells that are gone will be inserted at the front of the undo list *)
 Definition dlive (sm : summary) (s : state) : Prop :=
   forall t c r, dget sm t c r <> None ->
+  is_defunct t = true \/ is_defunct c = true \/
   exists T C, find_table O s t = Some T /\ find_col O (t_cols O T) c = Some C /\
               (In r (t_rows O T) \/ row_after O sm t r = Some false).
-
-Lemma dlive_existing : forall sm s t c r, dlive sm s -> dget sm t c r <> None -> existing O s t c r \/ row_after O sm t r = Some false.
-Proof.
-  intros sm s t c r H Hd. destruct (H t c r Hd) as [T [C [Hf [Hc [Hr|Hr]]]]]; [left; exists T, C; auto | right; exact Hr].
-Qed.
 
 (* undo, with exception sets: from any document that agrees with the ghost outside the cells created in the bundle
    and outside E, the undo list so far leads to a document that agrees with the start outside what E becomes along
@@ -193,11 +190,11 @@ Proof.
       destruct (delta_get_fold_add O _ _ _ Hg) as [H1|H1]; [left; exact H1|]. right. repeat split; try reflexivity.
       eapply (calc_ok_rows O); eassumption. }
     destruct Hold as [Hold|[-> [-> Hr]]].
-    + destruct (Hlive _ _ _ Hold) as [T1 [C1 [Hf1 [Hc1 Hr1]]]].
+    + destruct (Hlive _ _ _ Hold) as [Hdf|[Hdf|[T1 [C1 [Hf1 [Hc1 Hr1]]]]]]; [left; exact Hdf | right; left; exact Hdf|].
       destruct (col_upd_key O _ _ _ _ _ _ _ _ _ _ _ _ Hupd Hf1 Hc1) as [T1' [C1' [Hf1' [Hc1' Hrw]]]].
-      exists T1', C1'. split; [exact Hf1'|]. split; [exact Hc1'|]. rewrite Hrw. exact Hr1.
+      right. right. exists T1', C1'. split; [exact Hf1'|]. split; [exact Hc1'|]. rewrite Hrw. exact Hr1.
     + destruct (col_upd_key O _ _ _ _ _ _ _ _ _ _ _ _ Hupd Ef Ec) as [T1' [C1' [Hf1' [Hc1' Hrw]]]].
-      exists T1', C1'. split; [exact Hf1'|]. split; [exact Hc1'|]. left. rewrite Hrw. exact Hr.
+      right. right. exists T1', C1'. split; [exact Hf1'|]. split; [exact Hc1'|]. left. rewrite Hrw. exact Hr.
   - exact Hredo.
 Qed.
 
@@ -239,11 +236,11 @@ Lemma dget_none_old : forall (sm : summary) t old td r,
   td_find O (sm_tables O sm) t = Some td -> cd_find O (td_deltas O td) old = None -> dget sm t old r = None.
 Proof. intros sm t old td r H1 H2. unfold dget, delta_of. rewrite H1, H2. reflexivity. Qed.
 
-Lemma live_no_key : forall sm s t c r, dlive sm s ->
+Lemma live_no_key : forall sm s t c r, dlive sm s -> is_defunct t = false -> is_defunct c = false ->
   (forall T C, find_table O s t = Some T -> find_col O (t_cols O T) c = Some C -> False) -> dget sm t c r = None.
 Proof.
-  intros sm s t c r Hl Hn. destruct (dget sm t c r) eqn:E; [|reflexivity].
-  exfalso. destruct (Hl t c r) as [T [C [Hf [Hc _]]]]; [rewrite E; discriminate|]. exact (Hn T C Hf Hc).
+  intros sm s t c r Hl Hdt Hdc Hn. destruct (dget sm t c r) eqn:E; [|reflexivity].
+  exfalso. destruct (Hl t c r) as [H|[H|[T [C [Hf [Hc _]]]]]]; [rewrite E; discriminate | congruence | congruence|]. exact (Hn T C Hf Hc).
 Qed.
 
 Lemma col_ci_ext : forall cd cd' (C C' Cd Cd' : column) rows,
@@ -315,6 +312,8 @@ Proof.
     assert (has_column O Tg new = false) as -> by (apply (has_column_false O); split; assumption). reflexivity. }
   assert (Hloss : forall t1 c1 r1, ~ lossy O a g t1 c1 r1) by (intros t1 c1 r1 []).
   pose proof (find_table_id O _ _ _ Ef) as HidT. pose proof (find_table_id O _ _ _ Efg) as HidTg.
+  assert (Hdt : is_defunct t = false) by (apply (proj1 Hstruct _ _ Efg)).
+  assert (Hdold : is_defunct old = false) by (apply (proj2 (proj1 Hstruct _ _ Efg) _ _ Ecg)).
   exists g'. constructor; cbn [m_doc m_undo m_sum m_stored].
   - eapply tr_stepE; try eassumption; try exact Hnew.
   - exact (apply_doc_wf O L _ _ _ _ Hwfg Hag).
@@ -340,7 +339,7 @@ Proof.
               rewrite dget_rencol, !name_eqb_refl.
               destruct (td_find O (sm_tables O (m_sum O m)) t) as [td|] eqn:Etd.
               ** destruct (cd_find O (td_deltas O td) old) eqn:Eold; [reflexivity|].
-                 rewrite (dget_none_old _ _ _ _ r Etd Eold). eapply live_no_key; [exact Hlive|].
+                 rewrite (dget_none_old _ _ _ _ r Etd Eold). eapply live_no_key; [exact Hlive | exact Hdt | exact Hnew|].
                  intros T1 C1 H1 H2. congruence.
               ** symmetry. unfold dget, delta_of. rewrite Etd. reflexivity.
     + specialize (Hrel t0). destruct (find_table O (m_doc O m) t0) as [T0|], (find_table O g t0) as [Tg0|]; try exact Hrel.
@@ -359,16 +358,19 @@ Proof.
       * subst c0. assert (Hold : dget (m_sum O m) t old r <> None).
         { destruct (td_find O (sm_tables O (m_sum O m)) t) as [td|]; [|congruence].
           destruct (cd_find O (td_deltas O td) old); [exact Hg|].
-          exfalso. apply Hg. eapply live_no_key; [exact Hlive|]. intros T1 C1 Q1 Q2. congruence. }
-        destruct (Hlive t old r Hold) as [T1 [C1 [Q1 [Q2 Q3]]]]. assert (T1 = T) by congruence. subst T1.
+          exfalso. apply Hg. eapply live_no_key; [exact Hlive | exact Hdt | exact Hnew|]. intros T1 C1 Q1 Q2. congruence. }
+        destruct (Hlive t old r Hold) as [Hdf|[Hdf|[T1 [C1 [Q1 [Q2 Q3]]]]]]; [congruence | congruence|].
+        assert (T1 = T) by congruence. subst T1. right. right.
         eexists. eexists. split; [reflexivity|]. cbn [t_cols t_rows]. rewrite (find_app_col O), (find_drop_col O).
         assert (name_eqb new old = false) as -> by (apply name_eqb_neq; intro; subst; congruence).
         rewrite Hnc. cbn [c_id]. rewrite name_eqb_refl. split; [reflexivity | exact Q3].
       * name_cases c0 old; [congruence|].
-        destruct (Hlive t c0 r Hg) as [T1 [C1 [Q1 [Q2 Q3]]]]. assert (T1 = T) by congruence. subst T1.
+        destruct (Hlive t c0 r Hg) as [Hdf|[Hdf|[T1 [C1 [Q1 [Q2 Q3]]]]]]; [left; exact Hdf | right; left; exact Hdf|].
+        assert (T1 = T) by congruence. subst T1. right. right.
         eexists. eexists. split; [reflexivity|]. cbn [t_cols t_rows]. rewrite (find_app_col O), (find_drop_col O), E0, Q2.
         split; [reflexivity | exact Q3].
-    + destruct (Hlive t0 c0 r Hg) as [T1 [C1 [Q1 [Q2 Q3]]]]. exists T1, C1. auto.
+    + destruct (Hlive t0 c0 r Hg) as [Hdf|[Hdf|[T1 [C1 [Q1 [Q2 Q3]]]]]]; [left; exact Hdf | right; left; exact Hdf|].
+      right. right. exists T1, C1. auto.
   - eapply redo_snoc; [exact Hredo | exact Hag].
 Qed.
 
@@ -439,15 +441,18 @@ Proof.
     assert (Hcase : (t0 = new /\ dget (m_sum O m) old c0 r <> None) \/ (t0 <> new /\ t0 <> old /\ dget (m_sum O m) t0 c0 r <> None)).
     { destruct (td_find O (sm_tables O (m_sum O m)) old) eqn:Eo.
       - name_cases t0 new; [left; split; [exact E | exact Hg]|]. name_cases t0 old; [congruence|]. right. auto.
-      - right. assert (Hex := Hlive t0 c0 r Hg). destruct Hex as [T1 [C1 [Q1 _]]].
-        split; [intro; subst; congruence|]. split; [|exact Hg]. intro; subst t0.
+      - right. split; [intro; subst t0; unfold dget, delta_of in Hg; rewrite Hstale in Hg; cbn in Hg; congruence|].
+        split; [|exact Hg]. intro; subst t0.
         unfold dget, delta_of in Hg. rewrite Eo in Hg. cbn in Hg. congruence. }
+    assert (Hdold : is_defunct old = false) by (apply (proj1 Hs0 _ _ Efg)).
     destruct Hcase as [[-> Hg']|[Hn1 [Hn2 Hg']]].
-    + destruct (Hlive old c0 r Hg') as [T1 [C1 [Q1 [Q2 Q3]]]]. assert (T1 = T) by congruence. subst T1.
+    + destruct (Hlive old c0 r Hg') as [Hdf|[Hdf|[T1 [C1 [Q1 [Q2 Q3]]]]]]; [congruence | right; left; exact Hdf|].
+      assert (T1 = T) by congruence. subst T1. right. right.
       rewrite Eno, En, name_eqb_refl. eexists. eexists. split; [reflexivity|]. cbn [t_cols t_rows]. split; [exact Q2|].
       destruct Q3 as [Q3|Q3]; [left; exact Q3|]. right. unfold row_after in *. rewrite Htd'.
       destruct (td_find O (sm_tables O (m_sum O m)) old) as [d|] eqn:Eo; [rewrite name_eqb_refl; exact Q3 | discriminate].
-    + destruct (Hlive t0 c0 r Hg') as [T1 [C1 [Q1 [Q2 Q3]]]].
+    + destruct (Hlive t0 c0 r Hg') as [Hdf|[Hdf|[T1 [C1 [Q1 [Q2 Q3]]]]]]; [left; exact Hdf | right; left; exact Hdf|].
+      right. right.
       assert (name_eqb t0 old = false) as E1 by (apply name_eqb_neq; exact Hn2). rewrite E1, Q1. exists T1, C1.
       split; [reflexivity|]. split; [exact Q2|]. destruct Q3 as [Q3|Q3]; [left; exact Q3|]. right.
       unfold row_after in *. rewrite Htd'. assert (name_eqb t0 new = false) as E2 by (apply name_eqb_neq; exact Hn1).
@@ -745,9 +750,69 @@ Proof.
 Qed.
 
 
+(* deltas under the ops of a doc action that is no rename: they stay under their keys, except that removing a column or a
+   table moves the deltas of its cells to a defunct key *)
+Lemma dget_nonremoval_ops : forall a s s' u ops (sm : summary),
+  apply_doc O a s = Ok (s', (u, ops)) -> is_rename O a = false -> is_removal O a = false ->
+  forall t c r, dget (fold_left (sum_apply O) ops sm) t c r = dget sm t c r.
+Proof.
+  intros a s s' u ops sm H Hren Hrm t1 c1 r1. destruct a; try discriminate; unfold apply_doc in H.
+  - destruct (find_table O s t) as [T|]; [|discriminate]. destruct (_ || _); [discriminate|].
+    destruct (negb _); [discriminate|]. destruct (add_records O T rows cols); cbn in H; [|discriminate].
+    inversion H; subst s' u ops. cbn [fold_left sum_apply]. apply dget_records.
+  - destruct (find_table O s t) as [T|]; [|discriminate]. destruct (_ || _); [discriminate|].
+    destruct (negb _); [discriminate|]. destruct (old_values O (t_cols O T) rows cols); cbn in H; [|discriminate].
+    destruct (set_columns O (t_cols O T) rows cols); cbn in H; [|discriminate]. inversion H; subst s' u ops. reflexivity.
+  - destruct (find_table O s t) as [T|]; [|discriminate]. destruct (negb _); [discriminate|].
+    match type of H with context [add_records O ?T0 rows ?cs] => destruct (add_records O T0 rows cs) end; cbn in H; [|discriminate].
+    inversion H; subst s' u ops. cbn [fold_left sum_apply]. rewrite dget_records. apply dget_records.
+  - destruct (find_table O s t) as [T|]; [|discriminate]. destruct (has_column O T c); [discriminate|].
+    inversion H; subst s' u ops. cbn [fold_left sum_apply]. unfold dget. rewrite delta_of_with_table; reflexivity.
+  - destruct (find_table O s t) as [T|]; [|discriminate]. destruct (find_col O (t_cols O T) c) as [C|]; [|discriminate].
+    destruct (colinfo_eqb _ _); inversion H; subst s' u ops; reflexivity.
+  - destruct (find_table O s t); [discriminate|]. destruct (_ || _); [discriminate|].
+    inversion H; subst s' u ops. reflexivity.
+Qed.
+
+Lemma dget_removal_ops : forall a s s' u ops (sm : summary) t c r,
+  apply_doc O a s = Ok (s', (u, ops)) -> is_removal O a = true -> (forall t c r, ~ lossy O a s t c r) ->
+  is_defunct t = false -> is_defunct c = false ->
+  dget (fold_left (sum_apply O) ops sm) t c r =
+  match a with
+  | BulkRemoveRecord _ _ _ => dget sm t c r
+  | RemoveColumn _ t0 c0 => if name_eqb t t0 && name_eqb c c0 then None else dget sm t c r
+  | RemoveTable _ t0 => if name_eqb t t0 then None else dget sm t c r
+  | _ => dget sm t c r
+  end.
+Proof.
+  intros a s s' u ops sm t1 c1 r1 H Hrm Hloss Hdt Hdc. destruct a; try discriminate; unfold apply_doc in H.
+  - destruct (find_table O s t) as [T|]; [|discriminate].
+    remember (filter (fun r => zmem r (t_rows O T)) rows) as rows' eqn:Er.
+    destruct (list_eq_dec Z.eq_dec rows' []) as [Hnil|Hne].
+    + rewrite Hnil in H. inversion H; subst. reflexivity.
+    + rewrite (match_nonnil _ _ rows' _ _ Hne) in H. inversion H; subst s' u ops. cbn [fold_left sum_apply]. apply dget_records.
+  - destruct (find_table O s t) as [T|] eqn:Ef; [|discriminate]. destruct (find_col O (t_cols O T) c) as [C|] eqn:Ec; [|discriminate].
+    assert (Hform : ci_isformula (c_info O C) = false).
+    { destruct (ci_isformula (c_info O C)) eqn:E; [|reflexivity]. exfalso. apply (Hloss t c 0). cbn. split; [reflexivity|]. split; [reflexivity|]. eauto. }
+    rewrite Hform in H.
+    assert (Hops : ops = [SRenameColumn O t (Some c) (defunct_name c)]).
+    { match type of H with context [match ?l with [] => _ | _ => _ end] => destruct l end; inversion H; reflexivity. }
+    subst ops. cbn [fold_left]. rewrite dget_rencol.
+    name_cases t1 t; cbn [andb]; [|reflexivity]. subst t1.
+    assert (name_eqb c1 (defunct_name c) = false) as -> by (apply name_eqb_neq; intro; subst c1; discriminate).
+    destruct (name_eqb c1 c); reflexivity.
+  - destruct (find_table O s t) as [T|]; [|discriminate].
+    assert (Hops : ops = [SRenameTable O (Some t) (defunct_name t)]) by (destruct (t_rows O T); inversion H; reflexivity).
+    subst ops. cbn [fold_left]. rewrite dget_rentab.
+    assert (name_eqb t1 (defunct_name t) = false) as -> by (apply name_eqb_neq; intro; subst t1; discriminate).
+    destruct (td_find O (sm_tables O sm) t) as [td|] eqn:Etd.
+    + destruct (name_eqb t1 t); reflexivity.
+    + name_cases t1 t; [|reflexivity]. subst t1. unfold dget, delta_of. rewrite Etd. reflexivity.
+Qed.
+
 Lemma gi_doc_frame : forall s0 g m m' a DN,
   gi s0 g D m -> is_rename O a = false ->
-  (forall t c r, touch O a t c r -> dget (m_sum O m) t c r <> None -> is_rmrec a = true) ->
+  (forall t c r, touch O a t c r -> dget (m_sum O m) t c r <> None -> is_removal O a = true) ->
   (forall t c r, ~ lossy O a (m_doc O m) t c r) -> act_names_ok O a ->
   (forall t c r, img_list O (rev (m_undo O m)) (fun t c r => pending O (m_sum O m) t c r /\ touch O a t c r) t c r ->
                  inD DN t c r) ->
@@ -759,33 +824,39 @@ Proof.
   set (N := fun t c r => pending O sm t c r /\ touch O a t c r) in *.
   pose proof (calc_rel_seq_ex O g sm s Hrel) as Hseq.
   pose proof (struct_ok_seq_ex O _ g s sm Hseq Hstruct) as Hstr_s.
-  destruct Hstr_s as [Hnames_s [Hkeys_s Hafter_s]].
+  pose proof Hstr_s as [Hnames_s [Hkeys_s Hafter_s]].
   (* the ghost takes the same action *)
   destruct (apply_doc_cong O L a _ s g s' (u, ops) Hseq Ha) as [g' [[u2 ops2] [Hag Hsg']]].
   rewrite (img_nonrename O) in Hsg' by exact Hren.
   set (sm' := fold_left (sum_apply O) ops sm).
-  assert (Hkey : forall t c r, dget sm t c r <> None -> exists T C, find_table O s t = Some T /\ find_col O (t_cols O T) c = Some C).
-  { intros t c r Hd. destruct (Hlive t c r Hd) as [T [C [Hf [Hc _]]]]. eauto. }
-  assert (Hd : forall t c r, dget sm' t c r = dget sm t c r).
-  { destruct (is_rmrec a) eqn:Erm.
-    - destruct a; try discriminate. unfold apply_doc in Ha. destruct (find_table O s t) as [T|]; [|discriminate].
-      remember (filter (fun r => zmem r (t_rows O T)) rows) as rows' eqn:Er.
-      destruct (list_eq_dec Z.eq_dec rows' []) as [Hnil|Hne].
-      + rewrite Hnil in Ha. inversion Ha; subst. reflexivity.
-      + rewrite (match_nonnil _ _ rows' _ _ Hne) in Ha. inversion Ha; subst s' u ops. intros t1 c1 r1. unfold sm'. cbn [fold_left sum_apply].
-        apply dget_records.
-    - eapply dget_doc_ops; try eassumption. intros t c r Ht. destruct (dget sm t c r) eqn:E; [|reflexivity].
-      assert (false = true) by (apply (Hav t c r Ht); rewrite E; discriminate). discriminate. }
-  assert (Hnt : forall t c r, pending O sm t c r -> ~ N t c r -> ~ touch O a t c r).
-  { intros t c r Hp Hn Ht. apply Hn. split; assumption. }
+  assert (Hstr_s' : struct_ok O s' sm') by (eapply (struct_step O); [exact Hstr_s | exact Ha | exact Hloss | exact Hact]).
+  (* the deltas of the cells with live names: they stay, or their cell is removed together with its column or table *)
+  assert (Hd : forall t c r, is_defunct t = false -> is_defunct c = false ->
+               (~ touch O a t c r -> dget sm' t c r = dget sm t c r) /\
+               (dget sm' t c r <> None -> dget sm t c r <> None) /\
+               (touch O a t c r -> dget sm' t c r <> None -> exists t0 rows, a = BulkRemoveRecord O t0 rows)).
+  { intros t c r Hdt Hdc. destruct (is_removal O a) eqn:Erm.
+    - pose proof (dget_removal_ops a s s' u ops sm t c r Ha Erm Hloss Hdt Hdc) as Hx. fold sm' in Hx.
+      destruct a; try discriminate; cbn [touch] in *.
+      + rewrite Hx. split; [reflexivity|]. split; [tauto|]. eauto.
+      + destruct (name_eqb t t0 && name_eqb c c0) eqn:E.
+        * apply andb_true_iff in E. destruct E as [E1 E2]. apply name_eqb_eq in E1, E2. subst. rewrite Hx.
+          split; [tauto|]. split; congruence.
+        * rewrite Hx. split; [reflexivity|]. split; [tauto|]. intros [-> ->]. rewrite !name_eqb_refl in E. discriminate.
+      + name_cases t t0.
+        * subst. rewrite Hx. split; [tauto|]. split; congruence.
+        * rewrite Hx. split; [reflexivity|]. split; [tauto|]. intros ->. congruence.
+    - pose proof (dget_nonremoval_ops a s s' u ops sm Ha Hren Erm t c r) as Hx. fold sm' in Hx. rewrite Hx.
+      split; [reflexivity|]. split; [tauto|]. intros Ht Hdn. assert (false = true) by (apply (Hav t c r Ht Hdn)). discriminate. }
   assert (Hund : forall x, In x (rev u) -> is_rename O x = false /\ forall t c r, ~ touch O a t c r -> ~ touch O x t c r).
   { intros x Hx. apply in_rev in Hx. destruct (undo_touch O a s s' u ops Ha Hren x Hx) as [Hr Ht]. split; [exact Hr|].
     intros t c r Hn Htx. apply Hn. apply Ht. exact Htx. }
   assert (Hcre : forall t c r, existing O s t c r -> created O sm' t c r -> created O sm t c r).
   { intros t c r Hex Hc. eapply (sig_step O); try eassumption.
     rewrite (img_list_nonrename O) by (intros x Hx; apply (Hund x Hx)). exact Hc. }
-  assert (Hndef : forall t c r, dget sm t c r <> None -> is_defunct t = false).
-  { intros t c r Hd0. destruct (Hkey t c r Hd0) as [T [C [Hf _]]]. apply (Hnames_s _ _ Hf). }
+  assert (Hnd' : forall t c r, cellv O s' t c r <> None -> is_defunct t = false /\ is_defunct c = false).
+  { intros t c r Hc. apply (cellv_existing O) in Hc. destruct Hc as [T [C [Hf [Hc _]]]].
+    destruct (proj1 Hstr_s' _ _ Hf) as [Hdt Hdc]. split; [exact Hdt | exact (Hdc _ _ Hc)]. }
   exists g'. constructor; cbn [m_doc m_undo m_sum m_stored].
   - (* undo: the REAL undo actions, replayed on the new ghost, lead to the old ghost, except for the removed cells that
        had a pending delta *)
@@ -809,41 +880,45 @@ Proof.
       apply Hcre; [|exact Hi]. eapply (existing_seq O); [exact (seq_ex_sym O L _ _ _ Hseq) | exact Hex].
   - exact (apply_doc_wf O L _ _ _ _ Hwfg Hag).
   - exact (apply_doc_wf O L _ _ _ _ Hwfs Ha).
-  - eapply (struct_ok_seq_ex O); [exact (seq_ex_sym O L _ _ _ Hsg')|].
-    eapply (struct_step O); [| exact Ha | exact Hloss | exact Hact]. split; [exact Hnames_s|]. split; assumption.
+  - eapply (struct_ok_seq_ex O); [exact (seq_ex_sym O L _ _ _ Hsg') | exact Hstr_s'].
   - apply (calc_rel_of O).
-    + eapply (seq_ex_weaken O); [|exact Hsg']. intros t c r Hp. unfold pending in *.
-      change (dget sm' t c r <> None). rewrite Hd. exact Hp.
-    + intros t c r i v ig vg b a0 Hcs Hcg Hdl. change (dget sm' t c r = Some (b, a0)) in Hdl. rewrite Hd in Hdl.
-      assert (Hp : pending O sm t c r) by (unfold pending; change (dget sm t c r <> None); rewrite Hdl; discriminate).
+    + eapply (seq_ex_restrict O); [exact Hsg'|]. intros t c r Hex Hp. unfold pending in *.
+      change (dget sm' t c r <> None). change (dget sm t c r <> None) in Hp.
+      assert (Hcv : cellv O s' t c r <> None) by (apply (cellv_existing O); exact Hex).
+      destruct (Hnd' t c r Hcv) as [Hdt Hdc]. destruct (Hd t c r Hdt Hdc) as [Hd1 _].
+      destruct (touch_dec a t c r) as [Ht|Ht]; [|rewrite (Hd1 Ht); exact Hp].
+      exfalso. apply Hcv. eapply (removed_gone O); [exact Ha | exact (Hav t c r Ht Hp) | exact Ht].
+    + intros t c r i v ig vg b a0 Hcs Hcg Hdl. change (dget sm' t c r = Some (b, a0)) in Hdl.
+      assert (Hcv : cellv O s' t c r <> None) by (rewrite Hcs; discriminate).
+      destruct (Hnd' t c r Hcv) as [Hdt Hdc]. destruct (Hd t c r Hdt Hdc) as [Hd1 [Hd2 _]].
+      assert (Hpn : dget sm t c r <> None) by (apply Hd2; rewrite Hdl; discriminate).
       destruct (touch_dec a t c r) as [Ht|Ht].
-      * exfalso. assert (Hrm : is_rmrec a = true) by (apply (Hav t c r Ht); rewrite Hdl; discriminate).
-        destruct a; try discriminate. cbn [touch] in Ht. destruct Ht as [-> Hr].
-        rewrite (rmrec_gone O _ _ _ _ _ c r Ha Hr) in Hcs. discriminate.
-      * rewrite (frame O a s s' _ t c r Ha Hren Ht) in Hcs.
+      * exfalso. apply Hcv. eapply (removed_gone O); [exact Ha | exact (Hav t c r Ht Hpn) | exact Ht].
+      * rewrite (Hd1 Ht) in Hdl.
+        rewrite (frame O a s s' _ t c r Ha Hren Ht) in Hcs.
         rewrite (frame O a g g' _ t c r Hag Hren Ht) in Hcg.
         destruct (calc_rel_cellv O g sm s t c r i v Hrel Hcs) as [vg0 [Hcg0 Hm]].
         rewrite Hcg in Hcg0. inversion Hcg0; subst. unfold dget in Hdl. rewrite Hdl in Hm. exact Hm.
-  - intros t c r Hg. rewrite Hd in Hg. destruct (Hlive t c r Hg) as [T [C [Hf [Hc Hrow]]]].
+  - intros t c r Hg.
+    destruct (is_defunct t) eqn:Hdt; [left; reflexivity|]. destruct (is_defunct c) eqn:Hdc; [right; left; reflexivity|].
+    right. right. destruct (Hd t c r Hdt Hdc) as [Hd1 [Hd2 Hd3]]. pose proof (Hd2 Hg) as Hg0.
+    destruct (Hlive t c r Hg0) as [Hx|[Hx|[T [C [Hf [Hc Hrow]]]]]]; [congruence | congruence|].
     assert (Hntc : ~ touchc O a t c).
-    { intro Htc. assert (Hrm : is_rmrec a = true) by (apply (Hav t c r (touchc_touch O a t c r Htc)); exact Hg).
-      destruct a; try discriminate. exact Htc. }
+    { intro Htc. destruct (Hd3 (touchc_touch O a t c r Htc) Hg) as [t0 [rows ->]]. exact Htc. }
     pose proof (frame_col O a s s' _ t c Ha Hren Hntc) as Hcol. unfold colv in Hcol. rewrite Hf, Hc in Hcol.
     destruct (find_table O s' t) as [T'|] eqn:Ef'; [|discriminate].
     destruct (find_col O (t_cols O T') c) as [C'|] eqn:Ec'; [|discriminate].
     exists T', C'. split; [reflexivity|]. split; [exact Ec'|].
     destruct (touch_dec a t c r) as [Ht|Ht].
-    + right. assert (Hrm : is_rmrec a = true) by (apply (Hav t c r Ht); exact Hg).
+    + right. destruct (Hd3 Ht Hg) as [t0 [rows Ea]]. subst a. cbn [touch] in Ht. destruct Ht as [-> Hr].
       destruct Hrow as [Hrow|Hrow].
-      * destruct a; try discriminate. cbn [touch] in Ht. destruct Ht as [-> Hr].
-        eapply rmrec_row_after; eassumption.
-      * eapply row_after_ops; [exact Ha | exact Hren | exact (Hndef _ _ _ Hg) | | exact Hrow].
-        destruct a; try discriminate. intros [].
+      * eapply rmrec_row_after; eassumption.
+      * eapply row_after_ops; [exact Ha | exact Hren | exact Hdt | intros [] | exact Hrow].
     + destruct Hrow as [Hrow|Hrow].
       * left. assert (Hcv : cellv O s' t c r <> None).
         { rewrite (frame O a s s' _ t c r Ha Hren Ht). apply (cellv_existing O). exists T, C. auto. }
         apply (cellv_existing O) in Hcv. destruct Hcv as [T1 [C1 [Q1 [_ Q3]]]]. assert (T1 = T') by congruence. subst T1. exact Q3.
-      * right. eapply row_after_ops; [exact Ha | exact Hren | exact (Hndef _ _ _ Hg) | | exact Hrow].
+      * right. eapply row_after_ops; [exact Ha | exact Hren | exact Hdt | | exact Hrow].
         intro Hre. apply Ht. apply readds_touch. exact Hre.
   - eapply redo_snoc; [exact Hredo | exact Hag].
 Qed.
@@ -1029,9 +1104,10 @@ Proof.
         destruct Hd as [Hba Hb]. apply (vnorm_enc O L).
         eapply (venc_trans O L); [apply (venc_sym O L); exact Hba|].
         eapply (venc_trans O L); [exact Hb | apply Hcells; exact Hr].
-  - intros t1 c1 r Hg. rewrite Hdget in Hg. destruct (Hlive t1 c1 r Hg) as [T1 [C1 [Q1 [Q2 Q3]]]].
+  - intros t1 c1 r Hg. rewrite Hdget in Hg.
+    destruct (Hlive t1 c1 r Hg) as [Hdf|[Hdf|[T1 [C1 [Q1 [Q2 Q3]]]]]]; [left; exact Hdf | right; left; exact Hdf|].
     destruct (col_upd_key O _ _ _ _ _ _ _ _ _ _ _ _ Hupd_s Q1 Q2) as [T1' [C1' [Q1' [Q2' Qr]]]].
-    exists T1', C1'. split; [exact Q1'|]. split; [exact Q2'|]. rewrite Qr.
+    right. right. exists T1', C1'. split; [exact Q1'|]. split; [exact Q2'|]. rewrite Qr.
     destruct Hmarks as [_ [_ [_ M4]]]. rewrite <- M4. exact Q3.
   - rewrite app_assoc. eapply redo_app; [|exact Hrep3]. eapply redo_snoc; [exact Hredo | exact Hag].
 Qed.
@@ -1376,7 +1452,7 @@ Definition mixed_event_D (m : mstate O) (D0 : list cell) (e : event O) : option 
   | Calc _ t c chs => if calc_event_okb O m t c chs then Some D0 else None
   | Doc _ a =>
       if rename_okb a then Some D0
-      else if negb (is_rename O a) && (is_rmrec a || avoidb a (m_sum O m)) && no_loss_b O a (m_doc O m) && act_names_okb O a
+      else if negb (is_rename O a) && (is_removal O a || avoidb a (m_sum O m)) && no_loss_b O a (m_doc O m) && act_names_okb O a
            then Some (D0 ++ imgL (rev (m_undo O m)) (touched_pending a (m_sum O m)))
            else None
   | FlushCol _ t c => if no_delta_entry (m_sum O m) t c then Some D0 else None
@@ -1398,7 +1474,7 @@ Proof.
     + inversion Hok; subst D'. destruct a; try discriminate; cbn [rename_okb] in Ern; apply negb_true_iff in Ern.
       * exact (gi_rename_col _ _ _ _ _ _ _ Hgi Ern H).
       * exact (gi_rename_table _ _ _ _ _ _ Hgi Ern H).
-    + destruct (negb (is_rename O a) && (is_rmrec a || avoidb a (m_sum O m)) && no_loss_b O a (m_doc O m) && act_names_okb O a) eqn:Eok; [|discriminate].
+    + destruct (negb (is_rename O a) && (is_removal O a || avoidb a (m_sum O m)) && no_loss_b O a (m_doc O m) && act_names_okb O a) eqn:Eok; [|discriminate].
       inversion Hok; subst D'; clear Hok.
       apply andb_true_iff in Eok. destruct Eok as [Eok H4]. apply andb_true_iff in Eok. destruct Eok as [Eok H3].
       apply andb_true_iff in Eok. destruct Eok as [H1 H2]. apply negb_true_iff in H1.
@@ -1590,9 +1666,12 @@ Proof.
       rewrite Hd in Hm. exact Hm. }
   assert (Hlivep : deltas_live O smp s).
   { intros t c r Hd. unfold smp in Hd. rewrite (dget_prune O) in Hd.
-    destruct (is_defunct t || is_defunct c); [congruence|]. unfold keepr in Hd.
-    destruct (Hlive t c r) as [T [C [Hf [Hc [Hr|Hr]]]]].
+    destruct (is_defunct t || is_defunct c) eqn:Edf; [congruence|]. apply orb_false_iff in Edf. destruct Edf as [Edt Edc].
+    unfold keepr in Hd.
+    destruct (Hlive t c r) as [Hx|[Hx|[T [C [Hf [Hc [Hr|Hr]]]]]]].
     - unfold dget. destruct (row_after O sm t r) as [[|]|]; congruence.
+    - congruence.
+    - congruence.
     - exists T, C. auto.
     - rewrite Hr in Hd. congruence. }
   assert (Hlive_d : live_in O g smp).
